@@ -203,7 +203,8 @@ def _comprehension_over(sx, node, kind, payload, st, ckind):
 REG.comprehension_over = _comprehension_over
 
 
-REFERENCED = "any_range(0, %s, lambda i: event.tags[i][0] == 'e' and r0.id == bytes.fromhex(event.tags[i][1]))"
+# an "e" tag references an event if it has a value and that value is an id in hex (fix 8e49fcd: other "e" tags are skipped)
+REFERENCED = "any_range(0, %s, lambda i: event.tags[i][0] == 'e' and len(event.tags[i]) > 1 and fromhex_ok(event.tags[i][1]) and r0.id == bytes.fromhex(event.tags[i][1]))"
 OWN = "r0.pubkey == bytes.fromhex(event.pubkey)"
 process_tags_contract = Contract(
     "DBStorage.process_tags", {"self": V.ObjT("DBStorage"), "conn": lambda sx, st, name: Conc(SQL.Connection()), "event": EVENT, "r0": ROW},
@@ -221,7 +222,9 @@ process_tags_contract = Contract(
         # C07: no statement of this event's transaction failed and was swallowed (a failure must escape and roll everything back)
         ("no-failed-statement-swallowed", "not ghost('engine_failed')"),
     ],
-    raises={"EngineError+": True, "ValueError": True, "IndexError": True},
+    # C06 (fixes 8e49fcd): a canonical event (hex pubkey, non-empty tags) is never refused here except by the engine --
+    # no IndexError for a tag without a value, no ValueError for an "e" tag that is not an id
+    raises={"EngineError+": True, "ValueError": "not fromhex_ok(event.pubkey)"},
     modifies=["ghost.rows", "ghost.n_statements", "ghost.n_deletes", "ghost.n_tag_inserts", "ghost.last_rowcount"],
 )
 process_tags_contract.ghost_params = ("r0",)
@@ -237,7 +240,7 @@ process_tags = REG.unit(Unit(
         1: LoopSpec("collect", index="_t", invariants=[("rows-untouched", "in_rows(ghost('rows'), r0) == in_rows(old(ghost('rows')), r0) and ghost('txn_open') and ghost('n_deletes') == 0"),
                                                        ("no-failure-swallowed", "not ghost('engine_failed')")]),
     },
-    props=["C08", "C07", "C03", "C04"], ghost_init=ghost_db,
+    props=["C08", "C07", "C03", "C04", "C06"], ghost_init=ghost_db,
     canaries=[("never-deletes", "ghost('n_deletes') == 0")],
 ))
 process_tags.ghost_havoc = lambda sx, body, st: [st.ghost.__setitem__(g, sx.fresh(st.ghost[g].ty, "g_" + g, st)) for g in ("rows", "n_statements", "n_deletes", "last_rowcount", "engine_failed")]
@@ -245,7 +248,7 @@ process_tags.local_types = {"tags": V.Set(V.Tuple(V.Str, V.Str))}
 process_tags.obligation_props = [("sql:statement-inside-open-transaction", ["C07"]), ("post:stays-in-transaction", ["C07"]), ("inv:in-txn", ["C07"]),
                                  ("frame:", ["C03", "C04", "C08"]),
                                  ("post:no-failed-statement", ["C07"]), ("inv:no-failure-swallowed", ["C07"]),
-                                 ("post:", ["C08"]), ("inv:", ["C08"]), ("exc:", ["C08", "C07"])]
+                                 ("post:", ["C08"]), ("inv:", ["C08"]), ("exc:", ["C08", "C07", "C06"])]
 
 
 @REG.method("DBStorage", "process_tags", frame=None)
